@@ -111,8 +111,16 @@ def _gen_remove_pairs(rng, n):
         g = k + 1
         nested["defs"][str(g)] = {"kind": "nest", "tock": 0.0, "always": False, "kids": span}
         nested["doers"] = [i for i in range(1, lo)] + [g] + [i for i in range(hi + 1, k + 1)]
-        flat["defs"][str(c)]["script"][at]["es"].append(["rem", 0, arg])
-        nested["defs"][str(c)]["script"][at]["es"].append(["rem", g, arg])
+        if rng.random() < 0.35:
+            # an idempotent "make sure they are scheduled" call instead: extend() naming only doers that are
+            # already listed (or nothing) does nothing, listed flat or grouped
+            arg = rng.choice([[], [rng.choice(span)], list(span)])
+            flat["defs"][str(c)]["script"][at]["es"].append(["ext", 0, arg])
+            nested["defs"][str(c)]["script"][at]["es"].append(["ext", g, arg])
+            flat["limit"] = nested["limit"] = 12 * tock
+        else:
+            flat["defs"][str(c)]["script"][at]["es"].append(["rem", 0, arg])
+            nested["defs"][str(c)]["script"][at]["es"].append(["rem", g, arg])
         out.append({"flat": flat, "nested": nested})
     return out
 
